@@ -763,6 +763,16 @@ inline std::vector<Shape> all_shapes() {
         v.push_back(s);
     }
     {
+        // full root border (14 values + one link) over a full layer-1 root border: one insert splits the layer root, another one
+        // splits the root of the whole tree
+        Shape s;
+        s.name = "B15L15";
+        s.inserts = seq(1, 14);
+        for (int i = 1; i <= 15; ++i) s.inserts.push_back(P8() + k2(i));
+        s.pal = {{"in", "08"}, {"inL", P8() + "08"}, {"inL2", P8() + "09"}, {"newL", P8() + "16"}, {"newL2", P8() + "075"}, {"new", "075"}, {"new2", "15"}};
+        v.push_back(s);
+    }
+    {
         // three layers
         Shape s;
         s.name = "L2";
